@@ -208,7 +208,12 @@ def main(argv):
     n_ob = len(seen | baseline)
     n_proved = len(proved)
     all_proved = n_ob > 0 and n_proved == n_ob and not undecided and not refuted
-    level = "proof" if all_proved else "other"
+    claimed = "proof"
+    for chk in load_json(os.path.join(ROOT, "MANIFEST.json"), {}).get("checks", []):
+        if chk.get("property_id") == pid:
+            claimed = chk.get("level_claimed", {}).get("category", "proof")
+    # a property whose decisive clauses are partly bounded / has an open known finding is claimed as 'other' in the manifest
+    level = "proof" if (all_proved and claimed == "proof") else "other"
     cov = {
         "obligations": n_ob,
         "discharged": n_proved,
